@@ -239,6 +239,12 @@ class ReduceWindowSumPlugin(PrimitiveLeafPlugin):
                 f"Padding rank mismatch: expected {len(window_dims)}, received {padding_pairs}"
             )
 
+        if any(v < 0 for pair in padding_pairs for v in pair):
+            # the Conv / AveragePool based lowering cannot express cropping (negative pads are invalid in ONNX)
+            raise NotImplementedError(
+                "reduce_window_sum with negative padding is not supported"
+            )
+
         base_dilation = _normalize_int_tuple(
             params.get("base_dilation", (1,) * len(window_dims)), "base_dilation"
         )
